@@ -10,7 +10,7 @@ Open Scope Z_scope.
 Inductive case :=
 | CPanic (q : reqinfo) (reqline : bytes) (headers : list (bytes * bytes))
          (acts : list action) (fin : option (pval * N)) (o : pobs)
-| CTxn (k : tkind) (initial : list bytes) (ops : list op) (e : ending) (o : tobs).
+| CTxn (k : tkind) (initial : list (bytes * N)) (ops : list op) (e : ending) (o : tobs).
 
 (* compact constructors used by the case files *)
 Definition Q (sc : scope) (pattern : bytes) (has_route : bool) (params : list (bytes * bytes)) (dump : bytes) : reqinfo :=
@@ -20,8 +20,8 @@ Definition PO (esc : option N) (pre untouched wrote : bool) (status : Z) (body :
            (recs : list logrec) (fu wr rs : bool) : pobs :=
   {| o_escaped := esc; o_pre_started := pre; o_untouched := untouched; o_wrote := wrote; o_status := status;
      o_body := body; o_records := recs; o_followup_ok := fu; o_write_ok := wr; o_routes_same := rs |}.
-Definition TO (out : tout) (routes : list bytes) (fu wr : bool) : tobs :=
-  {| t_out := out; t_routes := routes; t_followup_ok := fu; t_write_ok := wr |}.
+Definition TO (out : tout) (routes : list (bytes * N)) (agree fu wr : bool) : tobs :=
+  {| t_out := out; t_routes := routes; t_views_agree := agree; t_followup_ok := fu; t_write_ok := wr |}.
 
 Definition under_eqb (a b : wstate) : bool :=
   Bool.eqb (u_wrote a) (u_wrote b) && (u_status a =? u_status b) && bytes_eqb (u_body a) (u_body b).
@@ -30,8 +30,8 @@ Definition under_eqb (a b : wstate) : bool :=
 Definition rec_agrees (model_prefix : logrec) (obs : logrec) : bool :=
   prefix_b (r_msg model_prefix) (r_msg obs) && list_eqb attr_eqb (r_attrs model_prefix) (r_attrs obs).
 
-Definition set_eqb (a b : list bytes) : bool :=
-  forallb (fun x => existsb (bytes_eqb x) b) a && forallb (fun x => existsb (bytes_eqb x) a) b.
+Definition set_eqb (a b : list (bytes * N)) : bool :=
+  forallb (fun x => existsb (route_eqb x) b) a && forallb (fun x => existsb (route_eqb x) a) b.
 
 Definition model_agrees (c : case) : bool :=
   match c with
@@ -51,7 +51,7 @@ Definition model_agrees (c : case) : bool :=
       match run_txn k {| locked := false; published := initial |} ops e with
       | Some (out, st) =>
           tout_eqb out (t_out o) && set_eqb (published st) (t_routes o)
-          && Bool.eqb (write_possible st) (t_write_ok o) && t_followup_ok o
+          && Bool.eqb (write_possible st) (t_write_ok o) && t_followup_ok o && t_views_agree o
       | None => false
       end
   end.
@@ -64,8 +64,9 @@ Definition case_spec_ok (c : case) : bool :=
       (* control: no panic — nothing escapes, nothing is logged, the response is the handler's *)
       usable o && match o_escaped o with None => true | _ => false end
       && o_untouched o && match o_records o with [] => true | _ => false end
-  | CTxn _ initial _ e o =>
-      spec_txn_ok initial (match e with EndPanic id => Some id | _ => None end) o
+  | CTxn k initial _ e o =>
+      spec_txn_ok initial (match e with EndPanic id => Some id | _ => None end)
+                  (match k, e with TView, _ => true | _, EndOk => false | _, _ => true end) o
   end.
 
 Definition mismatches (cs : list case) : list nat := true_idx (map (fun c => negb (model_agrees c)) cs).
